@@ -7,55 +7,57 @@
    position inside the root container, padding axes, resolved emphasis/outline colours, changes only at
    animation boundaries).  The reachable states (case, ti) are dumped and replayed into the implementation.
 
-   A family is given by constants (generated MC module, harness/styles_fam.py):
-     Skel      [n, kind, parent, b, e, rb, re]   the tree (one region r1; node 1 is the body)
-     Axes      sequence of [p, vals, lv]: property p takes, on level i, nothing (0) or vals[c] for c \in lv[i];
+   Fams is a sequence of families (generated MC module, harness/styles_fam.py); a family is a record
+     skel      [n, kind, parent, b, e, rb, re]   the tree (one region r1; node 1 is the body)
+     axes      sequence of [p, vals, lv]: property p takes, on level i, nothing (0) or vals[c] for c \in lv[i];
                level 1 is the region, level i > 1 is content node i - 1
-     AnimOpts  set of sequences of steps [lvl, ax, vi, b, e] (value vals[vi] of axis ax on level lvl)
-     IniOpts   set of sequences of [ax, vi]     <initial> overrides
-     Geos      set of [cell, px]                cell / pixel resolutions
-     TimeSeq   the ticks visited
-     Focus     the properties the invariants look at (the axes' properties and those that depend on them)
-     FullCheck TRUE: existence / root-relative lengths are checked for all applicable properties, not only Focus *)
+     anim      set of sequences of steps [lvl, ax, vi, b, e] (value vals[vi] of axis ax on level lvl)
+     ini       set of sequences of [ax, vi]     <initial> overrides
+     geos      set of [cell, px]                cell / pixel resolutions
+     times     the ticks visited
+     focus     the properties the invariants look at (the axes' properties and those that depend on them)
+     full      TRUE: existence / root-relative lengths are checked for all applicable properties, not only focus *)
 EXTENDS Styles
 
-CONSTANTS Skel, Axes, AnimOpts, IniOpts, Geos, TimeSeq, Focus, FullCheck
-
-NLv == Skel.n + 1
+CONSTANTS Fams
 
 RECURSIVE Sels(_, _)
 Sels(a, i) == IF i = 0 THEN {<<>>} ELSE {Append(s, x) : s \in Sels(a, i - 1), x \in a.lv[i]}
-RECURSIVE AllSels(_)
-AllSels(j) == IF j = 0 THEN {<<>>} ELSE {Append(ss, s) : ss \in AllSels(j - 1), s \in Sels(Axes[j], NLv)}
+RECURSIVE AllSels(_, _)
+AllSels(f, j) == IF j = 0 THEN {<<>>} ELSE {Append(ss, s) : ss \in AllSels(f, j - 1), s \in Sels(f.axes[j], f.skel.n + 1)}
 
-RECURSIVE StyCat(_, _, _)
-StyCat(ss, i, j) ==
+RECURSIVE StyCat(_, _, _, _)
+StyCat(f, ss, i, j) ==
   IF j = 0 THEN <<>>
-  ELSE StyCat(ss, i, j - 1) \o (IF ss[j][i] = 0 THEN <<>> ELSE <<[p |-> Axes[j].p, v |-> Axes[j].vals[ss[j][i]]]>>)
+  ELSE StyCat(f, ss, i, j - 1) \o (IF ss[j][i] = 0 THEN <<>> ELSE <<[p |-> f.axes[j].p, v |-> f.axes[j].vals[ss[j][i]]]>>)
 
-RECURSIVE SanCat(_, _, _)
-SanCat(an, i, j) ==
+RECURSIVE SanCat(_, _, _, _)
+SanCat(f, an, i, j) ==
   IF j = 0 THEN <<>>
-  ELSE SanCat(an, i, j - 1) \o (IF an[j].lvl # i THEN <<>>
-                                ELSE <<[p |-> Axes[an[j].ax].p, v |-> Axes[an[j].ax].vals[an[j].vi], b |-> an[j].b, e |-> an[j].e]>>)
+  ELSE SanCat(f, an, i, j - 1) \o (IF an[j].lvl # i THEN <<>>
+                                   ELSE <<[p |-> f.axes[an[j].ax].p, v |-> f.axes[an[j].ax].vals[an[j].vi], b |-> an[j].b, e |-> an[j].e]>>)
 
-MkDoc(ss, an, io, g) ==
-  [n |-> Skel.n, kind |-> Skel.kind, parent |-> Skel.parent, b |-> Skel.b, e |-> Skel.e,
-   nr |-> 1, rb |-> <<Skel.rb>>, re |-> <<Skel.re>>,
-   sty  |-> [k \in 1..Skel.n |-> StyCat(ss, k + 1, Len(Axes))],
-   san  |-> [k \in 1..Skel.n |-> SanCat(an, k + 1, Len(an))],
-   rsty |-> <<StyCat(ss, 1, Len(Axes))>>,
-   rsan |-> <<SanCat(an, 1, Len(an))>>,
-   ini  |-> [j \in 1..Len(io) |-> [p |-> Axes[io[j].ax].p, v |-> Axes[io[j].ax].vals[io[j].vi]]],
+MkDoc(f, ss, an, io, g) ==
+  [n |-> f.skel.n, kind |-> f.skel.kind, parent |-> f.skel.parent, b |-> f.skel.b, e |-> f.skel.e,
+   nr |-> 1, rb |-> <<f.skel.rb>>, re |-> <<f.skel.re>>,
+   sty  |-> [k \in 1..f.skel.n |-> StyCat(f, ss, k + 1, Len(f.axes))],
+   san  |-> [k \in 1..f.skel.n |-> SanCat(f, an, k + 1, Len(an))],
+   rsty |-> <<StyCat(f, ss, 1, Len(f.axes))>>,
+   rsan |-> <<SanCat(f, an, 1, Len(an))>>,
+   ini  |-> [j \in 1..Len(io) |-> [p |-> f.axes[io[j].ax].p, v |-> f.axes[io[j].ax].vals[io[j].vi]]],
    cell |-> g.cell, px |-> g.px]
 
-Cases == {MkDoc(ss, an, io, g) : ss \in AllSels(Len(Axes)), an \in AnimOpts, io \in IniOpts, g \in Geos}
+Cases(f) == {MkDoc(f, ss, an, io, g) : ss \in AllSels(f, Len(f.axes)), an \in f.anim, io \in f.ini, g \in f.geos}
 
-VARIABLES case, ti
-vars == <<case, ti>>
+VARIABLES fi, case, ti
+vars == <<fi, case, ti>>
 
-Init == case \in Cases /\ ti = 1
-Step == ti < Len(TimeSeq) /\ ti' = ti + 1 /\ case' = case
+TimeSeq == Fams[fi].times
+Focus == Fams[fi].focus
+FullCheck == Fams[fi].full
+
+Init == \E f \in 1..Len(Fams) : fi = f /\ case \in Cases(Fams[f]) /\ ti = 1
+Step == ti < Len(TimeSeq) /\ ti' = ti + 1 /\ case' = case /\ fi' = fi
 Spec == Init /\ [][Step]_vars
 
 Cx(i) == [doc |-> case, R |-> 1, t |-> TimeSeq[i]]
@@ -79,6 +81,11 @@ Inv_Exists == \A k \in Nodes : \A p \in FocusOf(k) : WellTyped(p, Comp(cx, k, p)
 
 \* every computed length is root-container relative
 Inv_RootRelative == \A k \in Nodes : \A p \in FocusOf(k) : \A l \in LensOf(Comp(cx, k, p)) : l.u \in {"rh", "rw"}
+
+\* (both at once, so that TLC derives each computed value once)
+Inv_ExistsRootRelative ==
+  \A k \in Nodes : \A p \in FocusOf(k) :
+    LET c == Comp(cx, k, p) IN WellTyped(p, c) /\ \A l \in LensOf(c) : l.u \in {"rh", "rw"}
 
 \* an inheritable property has the value of the nearest ancestor-or-self that specifies it at t, else the initial one
 RECURSIVE NearestSpec(_, _, _)
@@ -159,7 +166,9 @@ Inv_ColoursResolved ==
     /\ ("TextShadow" \in Focus \/ FullCheck) => LET c == Comp(cx, k, "TextShadow") IN c.k = "ts" => \A j \in 1..Len(c.sh) : c.sh[j].col # ""
 
 \* the computed values change only where an animation step begins or ends
-AllComp(i) == [k \in Nodes |-> [p \in Focus |-> Comp(Cx(i), k, p)]]
+\* (looked at where the value matters: on the kinds it applies to, and everywhere when it is inherited)
+Matters(k) == {p \in Focus : PropTable[p].inh \/ p \in Applicable(KindOf(cx, k))}
+AllComp(i) == [k \in Nodes |-> [p \in Matters(k) |-> Comp(Cx(i), k, p)]]
 Boundaries == UNION {StepTimes(NodeSan(cx, k), NodeB(cx, k), NodeE(cx, k)) : k \in Nodes}
 ChangesOnlyAtStepBoundaries ==
   [][AllComp(ti') # AllComp(ti) => \E x \in Boundaries : TimeSeq[ti] < x /\ x <= TimeSeq[ti']]_vars
